@@ -4,11 +4,12 @@
    stream forwarders are errors of the run / error items.  Statements only; proofs in
    Proofs/Errors.v (wrapper algebra), ErrorsRun.v (run loop), ErrorsMsg.v (message path),
    ErrorsOrigin.v (leaf origins), ErrorsE2E.v (end to end, nesting fuel), ErrorsFwd.v (panic
-   containment in the graph model), ErrorsFwdStream.v (forwarders on their own).
+   containment in the graph model), ErrorsFwdStream.v (forwarders on their own), ErrorsGuard.v
+   (self-panicking streams behind forwarders and copies, end to end).
    Models: Model/Errors.v (error terms, errors.Is / errors.As, the wrappers of compose/error.go,
    the run loop's error paths over a forest of nested graphs, the public paradigms) and
    Model/ErrorsFwd.v (MergeStreamReaders over forwarded sources) — both evaluated by Corr/C13.v. *)
-From Eino Require Import Base.Util Model.Errors Model.ErrorsFwd Proofs.Errors Proofs.ErrorsRun Proofs.ErrorsFwd Proofs.ErrorsMsg Proofs.ErrorsOrigin Proofs.ErrorsE2E Proofs.ErrorsFwdStream.
+From Eino Require Import Base.Util Model.Errors Model.ErrorsFwd Proofs.Errors Proofs.ErrorsRun Proofs.ErrorsFwd Proofs.ErrorsMsg Proofs.ErrorsOrigin Proofs.ErrorsE2E Proofs.ErrorsFwdStream Proofs.ErrorsGuard.
 Open Scope string_scope.
 
 (* ------------------------------------------------------------------ the path *)
@@ -447,6 +448,42 @@ Example forwarder_nonvacuous :
   (map (fun a => match a with AItem e => as_panic e | _ => None end) (answers F2 PStream false None),
    answers F1 PStream false None, conv_free F2, conv_free ex_forest, conv_free F3)
   = ([Some 5%N], [APanic], false, true, true).
+Proof. vm_compute. reflexivity. Qed.
+
+(* The same with self-panicking streams ALLOWED wherever the engine puts a forwarding goroutine or a
+   copy between the stream and whoever reads it outside a task ([guarded], decidable: a node may hand
+   back a stream whose convert function panics when its stage has two or more nodes — the outputs
+   are merged behind toStream forwarders — or the next stage has two or more nodes — the output is
+   copied, the shared element records the panic — and no branch condition reads that stage's
+   output), in forests where no node asks for an interrupt (converting an interrupt's checkpoint
+   reads the finished siblings' streams on the run loop's own goroutine) and no error value is an
+   interrupt: in every paradigm, for every input, at every nesting depth, no panic reaches the
+   caller and no result stream panics when read — the panic inside the stream-forwarding goroutine
+   is an error item / the error of the run. *)
+Theorem forwarded_panics_contained : forall F p cancel_before in_item,
+  guarded F in_item = true -> ~ In APanic (answers F p cancel_before in_item).
+Proof. exact guarded_panics_contained_lemma. Qed.
+Print Assumptions forwarded_panics_contained.
+
+(* [no_panic_escapes]'s condition is the special case without any self-panicking stream *)
+Theorem conv_free_is_guarded : forall g, conv_free_stages (g_stages g) = true -> guarded_graph g = true.
+Proof. exact conv_free_guarded_graph. Qed.
+
+(* non-vacuity: nested, the self-panicking streams sit (q) in a stage of two whose outputs are
+   merged, (a) in a single node whose output is copied for two successors, (tn) in a ToolsNode with
+   two calls; the hypothesis holds, conv_free does not, and the callers get errors carrying the
+   payloads (stream mode: the copies of a's stream reach the consumer "pre" of the tools graph as
+   error items; value mode: a and q read their own streams inside their tasks); one stream-native
+   node alone before END is not guarded *)
+Example forwarded_panics_nonvacuous :
+  let F := [ mkGraph false [[NSub "s" 1; NLam "q" FS (BConvPanic 1)]] false 0 BrNone;
+             mkGraph false [[NLam "a" FS (BConvPanic 2)]; [NLam "b" FT BOk; NLam "c" FT BOk]; [NSub "t" 2]] false 0 BrNone;
+             mkGraph false [[NLam "pre" FI BOk]; [NTools "tn" [TOk; TConvPanic 3]]; [NLam "post" FI BOk]] false 0 BrNone ] in
+  let F1 := [ mkGraph false [[NLam "a" FS (BConvPanic 5)]] false 0 BrNone ] in
+  (guarded F None, conv_free F, guarded F1 None,
+   map (fun a => match a with AItem e => as_panic e | AErr e => as_panic e | _ => None end) (answers F PStream false None),
+   map (fun a => match a with AErr e => (msg_path e, as_panic e) | _ => ([], None) end) (answers F PInvoke false None))
+  = (true, false, false, [Some 2%N; Some 2%N], [(["s"; "a"], Some 2%N); (["q"], Some 1%N)]).
 Proof. vm_compute. reflexivity. Qed.
 
 (* a panic that leaves the run of a sub-graph (a panicking branch condition, a panicking stream the
